@@ -271,6 +271,11 @@ pub struct Checker
     parent: Vec<Option<u8>>,
     /// pool entities whose auto-despawn signal has been dropped: the next garbage collection despawns them
     ent_doomed: HashSet<u8>,
+    /// who dropped the last auto-despawn signal of a doomed pool entity (the run and the position of the op): the
+    /// despawn the next collection performs was caused there
+    doom_cause: HashMap<u8, (Sender, usize)>,
+    excl_made: u32,
+    excl_created: u32,
     /// doomed in the middle of a collection pass: that pass or the next one may take them
     ent_grace: HashSet<u8>,
     /// reactors / pool entities a collection pass should have despawned and did not (pending despawn requests)
@@ -339,6 +344,9 @@ impl Checker
             missed_polled: Vec::new(),
             parent: Vec::new(),
             ent_doomed: HashSet::new(),
+            doom_cause: HashMap::new(),
+            excl_made: 0,
+            excl_created: 0,
             ent_grace: HashSet::new(),
             overdue_reactors: Vec::new(),
             overdue_entities: Vec::new(),
@@ -631,6 +639,16 @@ impl Checker
             }
             Ev::PayloadDrop(p) => self.on_payload_drop(*p),
             Ev::CanaryDrop(s) => self.on_canary_drop(*s),
+            Ev::ExclSystemMade(_) => { self.excl_made += 1; }
+            Ev::ExclStateCreated =>
+            {
+                self.excl_created += 1;
+                // C13 "created once": never more parameter states than exclusive systems handed to the framework
+                if self.excl_created > self.excl_made
+                {
+                    self.viol("C13", format!("the parameter state of exclusive systems was constructed {} times although only {} exclusive systems exist: a system's state is created once", self.excl_created, self.excl_made));
+                }
+            }
             Ev::Quiescent{ phase, snap, facts } => self.on_quiescent(*phase, snap, facts),
             Ev::Hook(h) => self.on_hook(h),
             Ev::Panic(msg) =>
@@ -685,6 +703,8 @@ impl Checker
             if sys.map(|s| self.alive(s)).unwrap_or(false)
             {
                 if let Some(d) = self.deliveries.get(&id).cloned() { self.lost_reaction(&d, "never ran in its tree"); }
+                // C09: every command runs in-line (or, postponed, right after its blocker) - not at all is neither
+                self.viol_sys("C09", sys, format!("delivery {id} to the live system {:?} neither ran in-line nor after a blocker: it is still {:?} when the tree's flush returned", sys, st));
             }
             if let Some(d) = self.deliveries.get_mut(&id) { d.status = DStatus::Discarded; }
         }
@@ -787,7 +807,8 @@ impl Checker
             }
             (Op::RunMany(_, k), Resolved::Sys(s)) =>
             {
-                expected = Some(vec![*s; 140 + 60 * (*k as usize % 3)]);
+                expected = Some(vec![*s; crate::exec::run_many_len(*k) as usize]);
+                if *k % 4 == 3 { self.rep.classes.hit("C02:tree_of_more_than_1000_commands"); }
                 kind = Some(HookKind::Manual);
                 if !self.alive(*s) { self.stale("C18:run_dead_system"); }
                 self.rep.classes.hit("C02:tree_of_more_than_100_commands");
@@ -915,7 +936,12 @@ impl Checker
             {
                 expected = Some(Vec::new());
                 let e = *e % n_ent;
-                if self.ent_alive[e as usize] { self.ent_doomed.insert(e); self.rep.classes.hit("C08:auto_despawn_of_pool_entity"); }
+                if self.ent_alive[e as usize]
+                {
+                    self.ent_doomed.insert(e);
+                    self.doom_cause.entry(e).or_insert((sender, self.pos));
+                    self.rep.classes.hit("C08:auto_despawn_of_pool_entity");
+                }
                 else { self.rep.classes.hit("C10:auto_despawn_signal_for_dead_entity"); }
             }
             (Op::Remove(..), _) | (Op::Despawn(..), _) | (Op::Gc, _) | (Op::Poll, _) | (Op::Probe(_), _) =>
@@ -1225,10 +1251,15 @@ impl Checker
                 {
                     self.viol_sys("C02", d.sys, format!("delivery {id} to live system {:?} was aborted ({:?})", d.sys, reason));
                     self.lost_reaction(&d, "was aborted");
-                    // C09: a command whose target is executing is postponed and runs after that execution - never dropped
+                    // C09: a command whose target is executing is postponed and runs after that execution - never dropped;
+                    // every other command runs in-line, before the next queued command starts
                     if d.sys.map(|s| !self.systems[s as usize].open_runs.is_empty()).unwrap_or(false)
                     {
                         self.viol_sys("C09", d.sys, format!("delivery {id} to the executing system {:?} was dropped ({:?}) instead of being postponed until that execution completed", d.sys, reason));
+                    }
+                    else
+                    {
+                        self.viol_sys("C09", d.sys, format!("delivery {id} to the live, idle system {:?} was dropped ({:?}) instead of running in-line", d.sys, reason));
                     }
                 }
                 else { self.rep.classes.hit("C02:abort_dead_target"); self.tree_had_incident = true; }
@@ -1463,8 +1494,12 @@ impl Checker
                         {
                             if self.ent_doomed.remove(&e)
                             {
-                                // automatic despawn: recursive, and it is a despawn like any other for C08
+                                // automatic despawn: recursive, and it is a despawn like any other for C08; for C12 it was
+                                // caused where the last signal was dropped
+                                let saved = self.cur_cause;
+                                if let Some(c) = self.doom_cause.remove(&e) { self.cur_cause = Some(c); }
                                 self.kill_entity_recursive(e);
+                                self.cur_cause = saved;
                                 self.rep.classes.hit("C08:pool_entity_collected");
                             }
                             else { self.viol("C07", format!("pool entity {e} was garbage collected by the framework although no auto-despawn signal for it was dropped")); }
